@@ -280,6 +280,22 @@ func (e *Engine) parseIntModel(s *Term, bits int, signed bool, fname string) Val
 		}
 		return Tuple{mkBVU(64, m.Uint64()), Iface{}}
 	}
+	if s.OfBV != nil && s.OfBV.K == KBV && (s.OfBVS == signed || !s.OfBVS) && s.OfBV.W <= bits && !(signed && !s.OfBVS && s.OfBV.W == bits) {
+		// Parse(Format(v)) = v and a W-bit value always fits: stay in bit-vectors
+		if s.OfBVS {
+			return Tuple{bvSext(s.OfBV, 64), Iface{}}
+		}
+		return Tuple{bvZext(s.OfBV, 64), Iface{}}
+	}
+	if s.OfInt != nil {
+		// Parse(Format(v)) = v (documented inverse pair); only the range can fail
+		if e.decide(intRangeOK(s.OfInt, bits, signed)) {
+			r := app("(_ int2bv 64)", KBV, 64, s.OfInt)
+			r.I = s.OfInt
+			return Tuple{r, Iface{}}
+		}
+		return Tuple{mkBV(64, 0), e.numError(fname, s)}
+	}
 	pat := `[0-9]+`
 	if signed {
 		pat = `[+-]?[0-9]+`
